@@ -219,7 +219,7 @@ impl BuildJob<'_> {
             tmp_base_name.push(".redo.tmp");
             df.do_dir.join(tmp_base_name)
         };
-        helpers::unlink(&tmp_name).map_err(RedoError::opaque_error)?;
+        helpers::remove_tmp(&tmp_name).map_err(RedoError::opaque_error)?;
         let out_file = tempfile::tempfile().map_err(RedoError::opaque_error)?;
         helpers::close_on_exec(out_file.as_raw_fd(), true).map_err(RedoError::opaque_error)?;
         // this will run in the dofile's directory, so use only basenames here
@@ -557,9 +557,7 @@ impl BuildJob<'_> {
             // be some kind of two-stage commit, I guess.
             if st1.size() > 0 && st2.is_none() {
                 // script wrote to stdout.  Copy its contents to the tmpfile.
-                helpers::unlink(tmp_name)
-                    .expect("failed to remove old temp file before copying stdout");
-                match File::create(tmp_name) {
+                match helpers::remove_tmp(tmp_name).and_then(|_| File::create(tmp_name)) {
                     Err(e) => {
                         let cwd = &env::current_dir().expect("cannot get working directory");
                         let abs_t = helpers::abs_path(cwd, t);
@@ -637,7 +635,9 @@ impl BuildJob<'_> {
         }
         // rv might have changed up above
         if rv != EXIT_SUCCESS {
-            helpers::unlink(tmp_name).expect("failed to remove temporary output file");
+            if let Err(e) = helpers::remove_tmp(tmp_name) {
+                log_err!("{:?}: remove {:?}: {}", t, tmp_name, e);
+            }
             if let Err(e) = sf.set_failed(ptx.state().env()) {
                 log_err!("{:?}: set failed: {}", t, e);
                 rv = EXIT_BUILD_JOB_ERROR;
